@@ -14,6 +14,8 @@ def pure(kind, count=10000, **kw):
 PRICING_KINDS = [r'hub\.bond', r'hub\.bondst', r'hub\.bondrw', r'hub\.check', r'tok\.send\.unbond', r'tok\.sendfrom\.unbond',
                  r'tok\.send\.convert', r'tok\.sendfrom\.convert']
 
+REWARD_SLICE = [r'reward\..*', r'tok\..*', r'hub\.ugi', r'inst\.reward']
+
 PROPS = {
     'C12': {
         'families': [pure('deleg', 10000, thorough_scale={'count': 80000}), pure('undeleg', 10000, thorough_scale={'count': 80000})],
@@ -21,5 +23,17 @@ PROPS = {
         'explanation': 'calculate_delegations / calculate_undelegations called directly (public items) on seeded lists '
                        '(length 0..64, sorted/unsorted, ties, zeros, amounts up to the u128 range) and compared with the Lean '
                        'functions the theorems are about; the C12 clauses are also re-checked on every implementation output',
+    },
+    'C14': {
+        'families': [gen('rewards', 30, 120), gen('token', 30, 120), gen('dust', 20, 120)],
+        'slice': REWARD_SLICE,
+        'explanation': 'reward-contract invariant (sum of holders dues <= recorded balance <= bank balance, claims pay whole units) '
+                       'proved for every message sequence; histories of index updates, mints/burns/transfers and claims incl. updates with no holders',
+    },
+    'C15': {
+        'families': [gen('rewards', 30, 120), gen('token', 30, 120)],
+        'slice': REWARD_SLICE,
+        'explanation': 'accrual formula, settlement-before-balance-change, independence of other holders proved on the model; '
+                       'the same statements are re-evaluated on every implementation step from Holder/State/AccruedRewards queries',
     },
 }
